@@ -488,22 +488,26 @@ class StackEffect:
         vals = set()
         kind = self.v2k.get(name)
         ar = _arity(self.repo, kind) if kind else None
-        for (a, b, lz, retval) in exits:
+        for (a, b, lz, sl, nz, retval) in exits:
+            # net = a*L + b - sl*[L >= 1]   (sl: loops over `children[:-1]` / `children[1:]`, one element short)
             if a == "TOP":
                 vals.add("TOP")
                 continue
-            if lz or a == 0:
-                v = b
+            if lz:
+                vs = [b]
             elif ar is not None:
-                v = a * ar + b
+                vs = [a * ar + b - (sl if ar >= 1 else 0)]
+            elif a == 0:
+                vs = [b - sl] if (nz or sl == 0) else [b - sl, b]
             else:
                 vals.add("TOP:%d*L%+d" % (a, b))
                 continue
-            if self.returns_value and self.decorated(m):
-                if retval is False:
-                    vals.add("no-return-value")
-                v += 1
-            vals.add(v)
+            for v in vs:
+                if self.returns_value and self.decorated(m):
+                    if retval is False:
+                        vals.add("no-return-value")
+                    v += 1
+                vals.add(v)
         self.summ[name] = vals
         return vals
 
@@ -511,7 +515,7 @@ class StackEffect:
         self._m = m
         self._stack = stack
         self._exits = []
-        states = self._block(m.node.body, [(0, 0, False)])
+        states = self._block(m.node.body, [(0, 0, False, 0, False)])
         for s in states:
             self._exits.append(s + (False,))
         return self._exits
@@ -529,7 +533,7 @@ class StackEffect:
             if s not in out:
                 out.append(s)
         if len(out) > 24:
-            return [("TOP", 0, False)]
+            return [("TOP", 0, False, 0, False)]
         return out
 
     def _stmt(self, s, states):
@@ -546,25 +550,29 @@ class StackEffect:
         if isinstance(s, ast.If):
             states = self._apply_expr(s.test, states)
             tz, fz = self._zero_knowledge(s.test)
-            a = self._block(s.body, [(x, y, z or tz) for x, y, z in states])
-            b = self._block(s.orelse, [(x, y, z or fz) for x, y, z in states])
+            # a state that knows L == 0 and L >= 1 at once describes no execution
+            a = self._block(s.body, [(x, y, z or tz, sl, nz or fz) for x, y, z, sl, nz in states
+                                     if not ((z or tz) and (nz or fz))])
+            b = self._block(s.orelse, [(x, y, z or fz, sl, nz or tz) for x, y, z, sl, nz in states
+                                       if not ((z or fz) and (nz or tz))])
             return self._uniq(a + b)
         if isinstance(s, ast.For):
             states = self._apply_expr(s.iter, states)
             n_iter = self._iter_len(s.iter)
-            body = self._block(s.body, [(0, 0, False)])
-            nets = {(a, b) for a, b, _z in body}
+            body = self._block(s.body, [(0, 0, False, 0, False)])
+            nets = {(a, b) for a, b, _z, _s, _n in body}
             if nets == {(0, 0)} or not body:
                 return states
             if nets == {(0, 1)} and n_iter is not None:
-                da, db = n_iter
-                return self._uniq([(x + da if x != "TOP" else x, y + db, z) for x, y, z in states])
-            return [("TOP", 0, False)]
+                da, db = n_iter     # db == -1: a slice that is one element short (nothing at all when L == 0)
+                return self._uniq([(x + da if x != "TOP" else x, y, z, sl + (1 if db == -1 else 0), nz)
+                                   for x, y, z, sl, nz in states])
+            return [("TOP", 0, False, 0, False)]
         if isinstance(s, ast.While):
-            body = self._block(s.body, [(0, 0, False)])
-            if {(a, b) for a, b, _z in body} <= {(0, 0)}:
+            body = self._block(s.body, [(0, 0, False, 0, False)])
+            if {(a, b) for a, b, _z, _s, _n in body} <= {(0, 0)}:
                 return states
-            return [("TOP", 0, False)]
+            return [("TOP", 0, False, 0, False)]
         if isinstance(s, ast.With):
             return self._block(s.body, states)
         if isinstance(s, ast.Try):
@@ -625,10 +633,10 @@ class StackEffect:
                 else:
                     top = True
         if top:
-            return [("TOP", 0, False)]
+            return [("TOP", 0, False, 0, False)]
         if delta_a == 0 and delta_b == 0:
             return states
-        return self._uniq([(x + delta_a if x != "TOP" else x, y + delta_b, z) for x, y, z in states])
+        return self._uniq([(x + delta_a if x != "TOP" else x, y + delta_b, z, sl, nz) for x, y, z, sl, nz in states])
 
 
 def r6_stack(repo):
